@@ -26,6 +26,7 @@ mod gen_wizard;
 mod c15;
 mod c18;
 mod c19;
+mod c20;
 
 use common::Ctx;
 
@@ -78,6 +79,7 @@ fn main() {
         "c15" => c15::run(&mut ctx),
         "c18" => c18::run(&mut ctx),
         "c19" => c19::run(&mut ctx),
+        "c20" => c20::run(&mut ctx),
         _ => {
             eprintln!("unknown suite {}", suite);
             std::process::exit(2);
